@@ -96,6 +96,8 @@ type op =
   | Handle of int * int                                 (* engine, name: the caller keeps the *Template that Load returns *)
   | RenderAlias of int * int * (int * int) list         (* Render(alias) *)
   | RenderHandle of int * int * (int * int) list        (* Template.Render on the kept handle of (engine, name) *)
+  | AddCallback of int                                   (* this engine gets a filter `upper` of its own (shadowing the built-in), a function c01fn and a test c01t *)
+  | RenderCb of int * int * string                        (* engine, name (65: {{ 'x'|upper }}, 66: {{ c01fn('q') }}), the result an engine with exactly its own callbacks gives *)
   | LateStore of int * int * string * bool              (* engine, name (60 and up: names no modelled template mentions), text; a template
                                                            that arrives later, in the engine's first loader or (true) in a loader registered now *)
 
@@ -109,6 +111,7 @@ let model_ops (o : op) : M.pool_op list =
   | Toggle e -> [ M.POToggleCache (nat_of_int e) ]
   | Gc -> [ M.POGC ]
   | Attr _ | Flood _ -> []                                (* attribute access on Go structs: outside the machine *)
+  | AddCallback _ | RenderCb _ -> []                      (* callbacks of one engine: outside the machine; the expectation is written down by the generator *)
   | LateStore _ -> []                                     (* names outside the machine's templates: oracle only, rendered with RenderAlias *)
   | Alias _ | Handle _ | RenderAlias _ | RenderHandle _ -> []   (* second references to a held template: outside the machine, oracle only *)
   | Poison -> List.map (fun k -> M.POPoison (k, junk_cell)) [ M.pk_root; M.pk_text; M.pk_var; M.pk_block; M.pk_include; M.pk_call; M.pk_if; M.pk_macro ]
@@ -164,6 +167,8 @@ let emit_history oc (r : rng) ~(stream : string) ~(engines : int) (store : ((int
       | Flood n -> [ "op", JS "flood"; "cnt", JI n ]
       | Alias (e, n, a) -> parse_since_render := true; [ "op", JS "alias"; "e", JI e; "n", JI n; "tpl", JI a ]
       | Handle (e, n) -> [ "op", JS "handle"; "e", JI e; "n", JI n ]
+      | AddCallback e -> [ "op", JS "addcallback"; "e", JI e ]
+      | RenderCb (e, n, exp) -> nt := true; [ "op", JS "renderalias"; "e", JI e; "n", JI n; "vars", JL []; "exp", JS exp ]
       | LateStore (e, n, txt, fresh) -> [ "op", JS "store"; "e", JI e; "n", JI n; "src", JS (hex txt); "ptr", JB fresh ]
       | RenderAlias (e, a, vars) -> nt := true;
           [ "op", JS "renderalias"; "e", JI e; "n", JI a; "vars", JL (List.map (fun (x, v) -> JL [ JI x; JI v ]) vars); "exp", JS "unmodelled:alias" ]
@@ -339,6 +344,14 @@ let fixed (r : rng) =
               Render (0, 0, []); LateStore (0, 63, "{% include 't64' %}", true); RenderAlias (0, 63, []); LateStore (0, 64, "inner", false); RenderAlias (0, 63, []) ]);
     (2, [], [ RenderAlias (0, 60, []); RenderAlias (1, 60, []); LateStore (1, 60, "one", false); RenderAlias (0, 60, []); RenderAlias (1, 60, []);
               LateStore (0, 60, "zero", true); RenderAlias (0, 60, []); RenderAlias (1, 60, []) ]);
+    (* callbacks belong to the engine they were added to: another engine of the process keeps the built-in filter and
+       does not know the function *)
+    (let t65 = "{{ 'x'|upper }}" and t66 = "{{ c01fn('q') }}{{ 1 is c01t ? 'y' : 'n' }}" in
+     let plain = "out:" ^ hex "X" and ovr e = "out:" ^ hex (Printf.sprintf "ovr%d" e) and fn e = "out:" ^ hex (Printf.sprintf "fnovr%dy" e) in
+     (2, [], [ LateStore (0, 65, t65, false); LateStore (1, 65, t65, false); LateStore (0, 66, t66, false); LateStore (1, 66, t66, false);
+               RenderCb (0, 65, plain); RenderCb (1, 65, plain); RenderCb (1, 66, "err:other");
+               AddCallback 0; RenderCb (0, 65, ovr 0); RenderCb (1, 65, plain); RenderCb (0, 66, fn 0); RenderCb (1, 66, "err:other");
+               Gc; RenderCb (1, 65, plain); AddCallback 1; RenderCb (1, 65, ovr 1); RenderCb (0, 65, ovr 0); RenderCb (1, 66, fn 1); RenderCb (0, 66, fn 0) ]));
     (* a missing include fails the render; the template renders the same afterwards on a good and a bad name *)
     (1, [], [ reg 0 0 (s [ text 1; incl 9 false ]); reg 0 1 (s [ text 2; incl 9 true; text 3 ]); Render (0, 0, []); Render (0, 1, []);
               Render (0, 0, []); Render (0, 1, []) ]) ]
